@@ -91,6 +91,8 @@ def c06_boundary():
     out.append(dict(args=['blk2:16', 'blk3:16', 'blk4:12', 'blk:40', 'rblk:24', 'i8', 'u16', 'f'], nfixed=8, vararg=False,
                     res=['i8', 'f']))
     out.append(dict(args=[], nfixed=0, vararg=False, res=['i64', 'd', 'ld', 'u8', 'ld', 'f']))
+    out.append(dict(args=['rblk:24', 'i64'], nfixed=2, vararg=False, res=[]))
+    out.append(dict(args=['rblk:40', 'd', 'blk:24'], nfixed=3, vararg=False, res=['d']))
     for p in out:
         p['style'] = 'boundary'
     return out
@@ -192,7 +194,26 @@ def run(chk):
     res = run_cases(impl, model, cases)
     seen = set()
     nbad = 0
+    sret_done = False
     for c, bad, m in res:
+        # the one recorded deviation (KNOWN_FINDINGS: c06:sret-rax) is split off; everything else
+        # about the same call is still judged
+        sret = [b for b in bad if b.startswith(H.SRET_MSG)]
+        bad = [b for b in bad if not b.startswith(H.SRET_MSG)]
+        if not any(sig == 'c06:sret-rax' for sig, _ in chk.known):
+            sret = []  # transitional: judged once the finding is listed in KNOWN_FINDINGS.txt
+        if sret and not sret_done:
+            sret_done = True
+            w = dict(c, proto=dict(args=['rblk:24', 'i64'], nfixed=2, vararg=False, res=[]), vals=[bytes(24), bytes(8)],
+                     resvals=[], body=dict(c['body'], kind='plain'), engine='interp')
+            (w, wb, wm), = run_cases(impl, model, [w])
+            if any(b.startswith(H.SRET_MSG) for b in wb):
+                c_, b_, m_ = w, [b for b in wb if b.startswith(H.SRET_MSG)], wm
+            else:
+                c_, b_, m_ = c, sret, m
+            if chk.finding('c06:sret-rax', replay_obj(c_, b_, m_),
+                           'MIR function %s entered via %s: %s' % (G.proto_sig(c_['proto']), c_['engine'], b_[0])):
+                nbad += 1
         if not bad:
             continue
         sig = signature(c)
